@@ -133,3 +133,4 @@ pair!(c04_pool_44, 4, 4);
 fn c04_poolbounds() {
     bounds_body()
 }
+
